@@ -310,7 +310,12 @@ impl LruManager {
             }
         }
 
+        // The manager now stands at the loaded checkpoint and has superseded
+        // no checkpoint of its own yet: a previous generation remembered from
+        // before the load (it may be this very one) must not be deleted by the
+        // next checkpoint.
         self.generation = generation;
+        self.prev_generation = 0;
         debug!(
             "LRU loaded: {} entries from {}",
             self.key_map.len(),
